@@ -71,7 +71,7 @@ theorem Heap.abs_alloc (h : Heap α) (r : Nat) (s : Items α) :
     (h.alloc r s).abs = h.abs.alloc r s.cnt := by
   simp [Heap.abs, Heap.alloc, AHeap.alloc]
 
-theorem cnt_hillS (sym : Nat → Nat → Nat) (t : List (Atom × α)) (hk : KeysNodup t) :
+theorem hillS_cnt_fun (sym : Nat → Nat → Nat) (t : List (Atom × α)) (hk : KeysNodup t) :
     (hillS sym t).cnt = lookupD t := by
   funext a
   rw [← Items.atoms_lookup, hill_counts sym t hk]
@@ -83,7 +83,7 @@ theorem Heap.step_refines (sym : Nat → Nat → Nat) (h : Heap α) (op : Op α)
   | new r s => simp [Heap.step, AHeap.step, Heap.abs_alloc]
   | dict r t =>
     simp only [Heap.step, AHeap.step, Option.map_some, Heap.abs_alloc]
-    rw [cnt_hillS sym t hw]
+    rw [hillS_cnt_fun sym t hw]
   | copy r r2 =>
     simp only [Heap.step, AHeap.step, Heap.abs_obj, Option.bind_eq_bind]
     cases h.obj r2 <;> simp [Heap.abs_alloc]
@@ -120,7 +120,7 @@ theorem Heap.step_refines (sym : Nat → Nat → Nat) (h : Heap α) (op : Op α)
     | none => simp
     | some s =>
       simp only [Option.bind_some, Option.map_some, Heap.abs_alloc]
-      rw [cnt_hillS sym s.atoms (Items.keysNodup_countAcc s (by simp [KeysNodup]))]
+      rw [hillS_cnt_fun sym s.atoms (Items.keysNodup_countAcc s (by simp [KeysNodup]))]
       congr 2; funext a; exact Items.atoms_lookup s a
 
 /-- **every program**: running any sequence of constructions, `+`, `n*`, `+=`, aliasing and
